@@ -153,3 +153,33 @@ CHECKS["C01"] = {
 NOT_APPLICABLE = {
     "C14": "YAML fidelity of arbitrary scalars/keys depends on libyaml's emitter/scanner behaviour on run-time strings; no clause is visible in libvna's source shape (DESIGN.md section 3, C14)",
 }
+
+
+# ---- clauses added with rules R37-R40, ABS-TOL, MAPPED-INDEX ---------------------------------------------------------------
+def _extend(pid, tech, text):
+    CHECKS[pid]["technique"] = CHECKS[pid]["technique"] + "; " + tech
+    t = CHECKS[pid]["text"]
+    i = t.rfind(" Does not decide")
+    CHECKS[pid]["text"] = (t[:i] + " " + text + t[i:]) if i >= 0 else t + " " + text
+
+
+_extend("C02", "stated-bound agreement of the iteration-limit setter",
+        "Also decides that vnacal_new_set_iteration_limit refuses exactly what its own report states (values below 1), so the documented smallest limit can be set.")
+_extend("C11", "message/test agreement of argument refusals",
+        "Also decides that each argument refusal whose report states the bound (at least N, positive, nonnegative, ascending) tests exactly that bound.")
+_extend("C08", "sibling agreement of frequency lower-bound refusals",
+        "Also decides that every entry point validating a frequency refuses negative values only (0 Hz loads through every framing).")
+_extend("C07", "slope analysis of the printf precision argument; row-major fill-order rule for the loader's row/column nests",
+        "Also decides that the digits written by add_double/add_complex follow the configured precision without an upper clamp, and that "
+        "every row/column loop nest of vnacal_load.c (incl. the old-version E-matrix reader) stores cells row-major.")
+_extend("C06", "slope analysis of the printf precision argument",
+        "Also decides that the digits written by print_value and the angle formats follow the configured precisions without an upper clamp.")
+_extend("C09", "append/terminator slack contract of the scanners' growable text buffers",
+        "Also decides that the Touchstone and NPD token buffers grow early enough for the terminator stored by end_text.")
+_extend("C03", "append/terminator slack contract of the scanners' growable text buffers",
+        "Also decides that the Touchstone and NPD token buffers grow early enough for the terminator stored by end_text.")
+_extend("C19", "taint rule: no comparison of matrix data with a non-zero absolute constant in the LU/QR kernels",
+        "Also decides that no branch of the LU/QR kernels compares matrix data with a non-zero absolute constant (scale dependence).")
+_extend("C20", "mapped-index rule on the row/column-given flags of _vnacal_new_add_common",
+        "Also decides that the row/column-given flags that select which equations exist are indexed in the full port grid (mapped index, not the raw counter of an abbreviated matrix).")
+_extend("C17", "mapped-index rule", "Also decides that full-grid flag arrays are indexed by the mapped index wherever one is in scope.")
